@@ -79,7 +79,9 @@ func (engine *XPath) EvaluateExpression(e expression.ICompiledExpression, datum 
 		// over `interface{}` should be developed to optimize this path.
 
 		var serialized []byte
-		serialized, err = anyxml.Xml(datum)
+		// The root tag is given explicitly so that a map of any size is wrapped in it
+		// (left to itself anyxml promotes the only key of a one-key map to the document element).
+		serialized, err = anyxml.Xml(datum, anyxml.DefaultRootTag)
 		if err != nil {
 			err = errors.ExprError{
 				Kind: xpathKind,
@@ -104,6 +106,11 @@ func (engine *XPath) EvaluateExpression(e expression.ICompiledExpression, datum 
 				Err:  err,
 			}
 			return
+		}
+		// Evaluate with the wrapping element as the context node: the members of the datum
+		// (the variables) are its children and so reachable by their bare names, however many there are.
+		if children := cursor.Children(); len(children) == 1 {
+			cursor = children[0]
 		}
 		var res exec.Result
 		res, err = exec.Exec(cursor, expr, contextSettings)
